@@ -201,6 +201,9 @@ impl Cases {
 	}
 	pub fn write(&self, dir: &Path, prefix: &str, shards: usize) {
 		let n = self.terms.len();
+		// a shard of more than ~2.5 MB of literal costs coqc more than 1 GB: add shards rather than
+		// grow them (16 of them are evaluated at a time); names carry two digits
+		let shards = shards.max(self.bytes / (5 << 19) + 1).min(96);
 		let shards = shards.max(1).min(n.max(1));
 		// balance shards by size: deal cases round-robin in decreasing size order
 		let mut order: Vec<usize> = (0..n).collect();
